@@ -2,7 +2,7 @@
 EXTENDS StorerModel
 MCNames == {"HEAD", "refs/heads/a", "refs/tags/t"}
 MCHashes == {"h1", "h2"}
-MCSymOK == {<<"HEAD", "refs/heads/a">>}
+MCSymOK == {<<"HEAD", "refs/heads/a">>, <<"HEAD", "refs/tags/t">>}
 MCNoRemove == {"HEAD"}
 MCObjects == {"blobA", "blobB", "treeT", "commitC", "tagG"}
 MCIdxVals == {"i1", "i2"}
